@@ -175,7 +175,7 @@ def check_splitter(arg):
 
 
 def main(chk):
-    chk.prove(["c_names"])
+    chk.prove(["c_names", "c_parsers"])
     facts, tables, pr = table_facts()
     for oid, ok, why in facts:
         ob = Obligation(oid=f"cisco_acl.{oid}", kind="table", hyps=(), goal=z3.BoolVal(ok), target="cisco_acl.port_name", note=why)
